@@ -57,7 +57,7 @@ SESSION_RULE = (" Session level (half of the workers): two real Clients (contact
                 "connection reset after k more bytes in one direction + send + restart, one direction silently swallowing bytes after k more bytes + send + restart, Close on either side + restart}; one transfer in flight at a time.")
 
 C12_RULE = ("two harnesses. MTCP: one evaluation = a seeded sequence of 1..20 sends (payload 1..2000 bytes) interleaved with advances across the 5 s keep-alive ticks on one simulated TCP-like "
-            "stream with seeded chunk sizes (1..4096 bytes per read) and, in 60% of the runs, a cut at a seeded byte offset. BBC: one evaluation = one bundle x modem MTU (3..255) x transmission id: "
+            "stream with seeded chunk sizes (1..4096 bytes per read) and a cut (reset) at a seeded byte offset in 45% of the runs or, in 25%, a clean close by the server between two operations (like TCP, the first write after it still succeeds locally, later ones fail). BBC: one evaluation = one bundle x modem MTU (3..255) x transmission id: "
             "the clean fragment train is judged, then EVERY single drop, duplication and adjacent swap of the train is applied in turn (enumerated), then 2..6 seeded multi-fault patterns (<16 losses "
             "in a row) and two interleaved incoming transmissions. Non-trivial = at least one send (MTCP) / a train of >= 2 fragments (BBC); distinct = distinct canonical log.")
 
